@@ -350,6 +350,25 @@ def runVq2 (ws : List String) : String :=
   | ["backlog", k, n] => match n.toNat? with
     | some n => if n ≤ 100000 then runVqBacklog k n else "bad-case"
     | none => "bad-case"
+  | ["deadlinerace", r] =>
+    -- a timer (5 units) pending, receive_timeout(6 units), and a receiver that wakes up only at time 9, after
+    -- both instants: the timeout is not enabled while the expiry is ready (crossbeam tries the operations
+    -- first), the expiry wake-up leads back to ready_event, which returns the timer (`timeout_none_sound`)
+    match r.toNat? with
+    | some r =>
+      if r = 0 ∨ r > 100000 then "bad-case"
+      else
+        let run (s : St Nat) (acts : List (Act Nat)) : Option (St Nat) := acts.foldlM (fun (s : St Nat) a => step s a) s
+        match run ({} : St Nat) [.sendTimer 1 5, .call .recvTimeout 6, .readClock, .foldPick, .tick 9] with
+        | some s =>
+          let timeoutEnabled := (step s (.wake .timeout)).isSome
+          match run s [.wake .timer, .readClock, .foldPick] with
+          | some s' =>
+            let nones := (s'.returned.filter fun (o : Out Nat × Nat) => (match o.1 with | Out.none => true | _ => false)).length
+            s!"late_none={nones + (if timeoutEnabled then 1 else 0)}"
+          | none => "model: schedule not enabled"
+        | none => "model: schedule not enabled"
+    | none => "bad-case"
   | ["expirerace", r] =>
     -- a timer (1 unit) pending, receive_timeout(6 units): whether the cancel is folded before or after the
     -- expiry test, the model never answers none before time 6 (`timeout_none_sound`)
